@@ -77,7 +77,7 @@ func C12(tier string) {
 	}
 	named = append(named, ciexyy.D50, ciexyy.D65, ciexyy.Color{X: 0.3127, Y: 0.3290, YY: 1}, ciexyy.Color{X: 0.3457, Y: 0.3585, YY: 1})
 	whites = append(whites, named...)
-	r.Rule(fmt.Sprintf("white points: %dx%d chromaticity lattice over [0.2,0.5]^2 plus 11 CIE illuminants and the package's D50/D65 (%d whites); all ordered pairs; near-neighbour pairs (offsets +/-1e-6..1e-3 in x and y); all triples over the named whites and an 8x8 sub-lattice; every sequence of up to 3 requests over {A->A, A->B, B->A, B->B} x both constructors; XYZ whites with Y != 1; Apply on the lattice {-0.5,0,0.5,1,2}^3 and a geometric lattice; distinct = ordered pairs of different whites", n, n, len(whites)))
+	r.Rule(fmt.Sprintf("white points: %dx%d chromaticity lattice over [0.2,0.5]^2 plus 11 CIE illuminants and the package's D50/D65 (%d whites); all ordered pairs; near-neighbour pairs (offsets +/-1e-6..1e-3 in x and y); all triples over the named whites and an 8x8 sub-lattice; every sequence of up to 3 requests over {A->A, A->B, B->A, B->B} x both constructors; XYZ whites with Y != 1; xyY whites with luminances {0.25,0.5,0.8,1,2,100} on either side (white-to-white, float64 Bradford matrix of the converted whites); Apply on the lattice {-0.5,0,0.5,1,2}^3 and a geometric lattice; distinct = ordered pairs of different whites", n, n, len(whites)))
 	r.Assume("reference: linear Bradford adaptation M^-1 diag(dst cone / src cone) M with the published Bradford matrix, float64, Gauss-Jordan inverse")
 
 	bad := func(key, desc string, a, b ciexyy.Color) {
@@ -285,6 +285,36 @@ func C12(tier string) {
 					}
 				}
 				r.Eval(1)
+			}
+		}
+	}
+
+	// xyY constructor with whites whose luminance is not 1, on either side: the
+	// source white still maps onto the destination white's XYZ, and the result is
+	// the XYZ constructor's on the converted whites
+	for _, sa := range []float32{1, 0.25, 0.8, 2, 100} {
+		for _, sb := range []float32{1, 0.5, 0.8, 100} {
+			if sa == 1 && sb == 1 {
+				continue
+			}
+			for _, a0 := range named {
+				for _, b0 := range named {
+					a, b := ciexyy.Color{X: a0.X, Y: a0.Y, YY: sa}, ciexyy.Color{X: b0.X, Y: b0.Y, YY: sb}
+					A, B := ciexyz.ColorFromXYY(a), ciexyz.ColorFromXYY(b)
+					ca := ciexyz.AdaptBetweenXYYWhitePoints(a, b)
+					out, want := xyzV(ca.Apply(A)), xyzV(B)
+					for k := 0; k < 3; k++ {
+						if !(math.Abs(out[k]-want[k]) <= 1e-6*math.Max(1, math.Abs(want[k]))) {
+							bad("white-to-white-xyY-luminance", fmt.Sprintf("xyY-constructed adaptation from white (%g,%g) Y=%g to (%g,%g) Y=%g maps the source white to %v, destination white is %v", a.X, a.Y, a.YY, b.X, b.Y, b.YY, out, want), a, b)
+							break
+						}
+					}
+					ref := refs.BradfordAdapt(xyzV(A), xyzV(B))
+					if d := refs.MaxAbsDiff(m3of(matrix.Matrix3(ca)), ref); !(d <= 1e-6*math.Max(1, ref.NormInf())) {
+						bad("bradford-matrix-xyY-luminance", fmt.Sprintf("xyY-constructed adaptation (%g,%g) Y=%g -> (%g,%g) Y=%g differs from the float64 Bradford matrix of the converted whites by %.3g", a.X, a.Y, a.YY, b.X, b.Y, b.YY, d), a, b)
+					}
+					r.Eval(2)
+				}
 			}
 		}
 	}
